@@ -511,6 +511,7 @@ T1_EVICT_DEP_KEYS = {"cache_hits", "cache_misses", "cache_used", "t1.cache_evict
 T1_HIT_DEP_KEYS = {"max_delta", "t1_frontier_evicted", "t1_dedup_hits", "t1_visited_evicted"}
 F_T1_EVICT = "t1-parallel-cache-eviction-order"
 T1_GIDS = ["g1", "g2", "G", "γ", "g10", "main", "g3", "zz"]
+T1_GIDS_MORE = ["g4", "g5", "g6", "g7", "g8", "g9", "g11", "a", "b", "c"]
 OFF_MODES = ["absent", "disabled", "gate_off", "workers1", "workers0"]
 
 
@@ -536,9 +537,15 @@ class GatedStore:
 def t1_cases(draw):
     from checks.c12 import t1_cfgs
 
-    ng = draw(st.sampled_from([2, 2, 3, 3, 4, 5, 6]))
-    gids = draw(st.lists(st.sampled_from(T1_GIDS), min_size=ng, max_size=ng, unique=True))
-    graphs = {gid: draw(world.graph_specs(max_nodes=6, max_edges=8)) for gid in gids}
+    ng = draw(st.sampled_from([2, 2, 3, 3, 4, 5, 6, 11, 12, 13]))  # > 10 graphs: task indices gain a digit
+    gids = draw(st.lists(st.sampled_from(T1_GIDS + T1_GIDS_MORE), min_size=ng, max_size=ng, unique=True))
+    if ng > 6:
+        # many graphs: small ones, each with a node every text matches (all of them produce deltas)
+        graphs = {gid: draw(world.graph_specs(max_nodes=3, max_edges=3)) for gid in gids}
+        for k, gid in enumerate(gids):
+            graphs[gid]["nodes"].append({"id": f"m{k}", "label": "apple", "tags": []})
+    else:
+        graphs = {gid: draw(world.graph_specs(max_nodes=6, max_edges=8)) for gid in gids}
     t1 = draw(t1_cfgs())
     t1.pop("cache", None)
     cache = draw(st.sampled_from(["off", "off", "lru", "lru", "lru_small", "bytes", "bytes_small"]))
@@ -558,6 +565,8 @@ def t1_cases(draw):
     calls = []
     for j in range(ncalls):
         text = draw(world.texts_for(graphs)) if (j == 0 or draw(st.sampled_from([True, False, False]))) else calls[0]["text"]
+        if ng > 6 and j == 0:
+            text = ("apple " + text).strip()
         calls.append({"text": text, "prio": list(draw(st.permutations(list(range(ng)))))})
     return {"graphs": graphs, "order": gids, "t1": t1, "cache": cache, "cache_n": cache_n, "perf": perf,
             "workers": draw(st.sampled_from([2, 2, 3, 4, 5, 6, 7, 8])), "off": draw(st.sampled_from(OFF_MODES)), "calls": calls,
